@@ -2,6 +2,7 @@
 pub fn main(args: &[String]) -> i32 {
     match args.first().map(|s| s.as_str()) {
         Some("c04") => super::c04::worker(&args[1..]),
+        Some("baseline") => super::c15::worker_baseline(&args[1..]),
         Some("genreport") => super::c11::worker_genreport(&args[1..]),
         _ => 3,
     }
